@@ -183,10 +183,14 @@ class Oracle:
         part.count("transitions")
         if op.kind == "advance":
             if not out.ok:
-                raise RuntimeError(f"bar advance failed in C10 harness: {out.error}")
+                part.violation("C10|advance|exception", "the end of a bar raised", {"history": list(hist)}, {"error": out.error})
+                return
             self.compare(ctx, hist, "advance")
             if any(a for a in ctx.actions[snap["n_actions"]:]):
-                raise RuntimeError("liquidation happened in the C10 world; alphabet must keep the account healthy")
+                # the alphabet keeps the ledger's account healthy (debts far below the limit, prices constant): a liquidation means the positions are not
+                # what the ledger says they are
+                part.violation("C10|advance|liquidated", "an account that is healthy by the ledger (amounts x index ratios) was liquidated at the end of a bar",
+                               {"history": list(hist)}, {"actions": [type(a).__name__ for a in ctx.actions[snap["n_actions"]:]][:4]})
             return
         if not out.ok:
             part.count("rejected")
